@@ -91,6 +91,12 @@ def base_corpus():
     # ---------------------------------------------------------------- records
     a(P("record_roundtrip", E2 + ".type Pr = [a:number, b:number]\n.decl r(p:Pr)\n.decl o(x:number,y:number)\n.output o\nr([x,y]) :- e(x,y).\no(y,x) :- r([x,y]).\n", "record"))
     a(P("record_nested_match", E2 + ".type Pr = [a:number, b:number]\n.decl r(k:number,p:Pr)\n.decl o(x:number)\n.output o\nr(x,[x,y]) :- e(x,y).\nr(y,nil) :- e(_,y).\no(x) :- r(x,[x,x]).\no(x) :- r(x,p), p = nil, e(x,_).\n", "record"))
+    # ---------------------------------------------------------------- algebraic data types (lowered to records / branch numbers)
+    ADT = ".type T = A {x:number} | B {a:number, b:number} | N {}\n"
+    a(P("adt_branches", E2 + ADT + ".decl r(t:T)\n.decl o(x:number,y:number)\n.output o\nr($A(x)) :- e(x,x).\nr($B(x,y)) :- e(x,y), x < y.\nr($N()) :- e(_,7).\no(x,0) :- r($A(x)).\no(x,y) :- r($B(y,x)).\no(1,1) :- r($N()).\n", "adt"))
+    a(P("adt_enum", E2 + ".type En = Red {} | Green {} | Blue {}\n.decl c(x:number, k:En)\n.decl o(x:number,y:number)\n.output o\nc(x,$Red()) :- e(x,_).\nc(y,$Green()) :- e(_,y).\nc(x,$Blue()) :- e(x,x).\no(x,2) :- c(x,$Green()), !c(x,$Red()).\no(x,3) :- c(x,k), k = $Blue().\no(x,4) :- c(x,k), k != $Red(), k != $Blue().\n", "adt", m=3))
+    a(P("adt_decl_order", E2 + ".type T = Zed {x:number} | Mid {a:number, b:number} | Abc {x:number}\n.decl r(k:number,t:T)\n.decl o(x:number,y:number)\n.output o\nr(x,$Zed(y)) :- e(x,y).\nr(x,$Abc(y)) :- e(y,x).\nr(x,$Mid(x,y)) :- e(x,y), x != y.\no(x,y) :- r(x,$Abc(y)), !r(x,$Zed(y)).\no(y,x) :- r(x,$Mid(_,y)), r(y,$Zed(_)).\n", "adt"))
+    a(P("adt_nested_recursive", E2 + V1 + ".type L = Nil {} | Cons {h:number, t:L}\n.decl l(x:number,p:L)\n.decl o(x:number,y:number)\n.output o\nl(x,$Nil()) :- v(x).\nl(y,$Cons(x,$Nil())) :- l(x,$Nil()), e(x,y).\nl(z,$Cons(y,$Cons(x,$Nil()))) :- l(y,$Cons(x,$Nil())), e(y,z).\no(z,x) :- l(z,$Cons(_,$Cons(x,_))).\no(y,y) :- l(y,$Cons(_,t)), t = $Nil().\n", "adt", m=2))
     # ---------------------------------------------------------------- eqrel
     a(P("eqrel_basic", E2 + ".decl q(x:number,y:number) eqrel\n.output q\nq(x,y) :- e(x,y).\n", "eqrel", m=3))
     a(P("eqrel_join", E2 + V1 + ".decl q(x:number,y:number) eqrel\n.decl o(x:number,y:number)\n.output o\nq(x,y) :- e(x,y).\no(x,y) :- v(x), q(x,y).\n", "eqrel", m=3))
